@@ -16,11 +16,11 @@ def S(op, **kw):
 
 
 def clean_send(pid, g=1):
-    return [S('send', g=g, p=pid), S('net', dir='c2g', i=0, act='deliver'), S('net', dir='g2c', i=0, act='deliver')]
+    return [S('send', g=g, p=pid), S('net', dir='c2g', svc='TunnelReq', i=0, act='deliver'), S('net', dir='g2c', svc='TunnelRes', i=0, act='deliver')]
 
 
 def clean_tele(pid):
-    return [S('gwtele', p=pid), S('net', dir='g2c', i=0, act='deliver'), S('recv'), S('net', dir='c2g', i=0, act='deliver')]
+    return [S('gwtele', p=pid), S('net', dir='g2c', svc='TunnelReq', i=0, act='deliver'), S('recv'), S('net', dir='c2g', svc='TunnelRes', i=0, act='deliver')]
 
 
 def odd(rng, base):
@@ -113,8 +113,10 @@ class Gen:
                 st.append(S('reader', act='on' if reader else 'off'))
             elif c < 0.86:
                 st.append(S('drain'))
-            elif c < 0.92:
+            elif c < 0.90:
                 st.append(S('adv', d=odd(rng, R)))
+            elif c < 0.92:
+                st.append(S('adv', d=odd(rng, rng.choice([T, 2 * T]))))    # the application stalls longer than the response timeout
             elif c < 0.96 and not tcp:
                 # reconnect: the gateway gives up, the client reconnects cleanly
                 st += [S('flush', n=1), S('gwpolicy', s='nextchan', n=rng.choice([1, 2, 3])), S('gwgiveup'), S('flush', n=3)]
@@ -133,7 +135,7 @@ class Gen:
         st = [S('connect'), S('reader', act='on')]
         for _ in range(wrap):
             st += clean_send(self.newpid())
-            st += [S('gwtele', p=self.newpid()), S('flush', n=1)]
+            st += [S('gwtele', p=self.newpid()), S('flush', n=2)]
         for _ in range(n):
             c = rng.random()
             if c < 0.15:
@@ -150,7 +152,7 @@ class Gen:
                 st.append(S('adv', d=odd(rng, rng.choice([R // 2, R, 2 * R]))))
             else:
                 st.append(S('adv', d=odd(rng, T)))
-        st += [S('flush', n=3), S('adv', d=odd(rng, T)), S('flush', n=2)]
+        st += [S('flush', n=3), S('adv', d=odd(rng, T)), S('flush', n=2), S('reader', act='off'), S('drain')]
         return dict(run=run, cfg=cfg, steps=st, tag='link')
 
     # ---- C09: heartbeat / reconnect ------------------------------------------
